@@ -364,9 +364,28 @@ func c19exec(c *h.Ctx, cs *h.Case) {
 		}()
 		c19run(res, &mu)
 	}()
-	select {
-	case <-finished:
-	case <-time.After(8 * time.Second):
+	// a case hangs when no operation of it returns for 20 s (not: when the whole case takes longer than a fixed
+	// time - a case with several runtests ops runs a dozen simulations, which takes its time on a loaded machine; a
+	// case that is abandoned while it still runs would go on beside the next one and share the process-wide flags
+	// and working directory with it)
+	hung := false
+	last, lastAt := -1, time.Now()
+	for done := false; !done && !hung; {
+		select {
+		case <-finished:
+			done = true
+		case <-time.After(250 * time.Millisecond):
+			mu.Lock()
+			n := len(res.impl)
+			mu.Unlock()
+			if n != last {
+				last, lastAt = n, time.Now()
+			} else if time.Since(lastAt) > 20*time.Second {
+				hung = true
+			}
+		}
+	}
+	if hung {
 		mu.Lock()
 		for len(res.impl) < len(res.ops) {
 			res.impl = append(res.impl, "hang")
